@@ -17,7 +17,8 @@ static CC_ArrayIter it;       static int it_slot = -1;
 static CC_ArrayZipIter zit;   static int z1 = -1, z2 = -1;
 
 static int sess_default;   /* the session object was built by cc_array_new (C library allocator triple) */
-static void shim_reset(void) { for (int i = 0; i < NSLOT; i++) A[i] = NULL; it_slot = z1 = z2 = -1; sess_default = 0; }
+static int sparse, sweep_now = 1;   /* obs=sparse on the constructor line: no content sweep except in `observe` */
+static void shim_reset(void) { for (int i = 0; i < NSLOT; i++) A[i] = NULL; it_slot = z1 = z2 = -1; sess_default = 0; sparse = 0; sweep_now = 1; }
 
 /* fixed callbacks */
 static bool  pred_even(const void *e) { cb_record((void *)e); return VAL(e) % 2 == 0; }
@@ -39,6 +40,7 @@ static void fn_reduce(void *a, void *b, void *res) {
 }
 
 static void obs_all(void) {
+    if (!sweep_now) return;      /* sparse session: status, out-values and callback log only */
     for (int k = 0; k < NSLOT; k++) {
         if (!A[k]) continue;
         char nm[8]; snprintf(nm, sizeof nm, " a%d", k);
@@ -100,6 +102,7 @@ static void do_op(Cmd *c) {
         CC_ArrayConf conf; cc_array_conf_init(&conf);
         enum cc_stat st;
         shim_reset();
+        if (!strcmp(kv_str(c, "obs", ""), "sparse")) { sparse = 1; sweep_now = 0; }
         if (is_op(c, "new")) {
             conf.capacity = kv_u64(c, "cap", conf.capacity);
             const char *e = kv_str(c, "exp", NULL);
@@ -113,6 +116,8 @@ static void do_op(Cmd *c) {
     }
     int any = 0; for (int i = 0; i < NSLOT; i++) if (A[i]) any = 1;
     if (!any) { o("st=- nosession"); o_sep(); o("-"); return; }
+    sweep_now = !sparse;
+    if (is_op(c, "observe")) { sweep_now = 1; o("st=-"); obs_all(); o_sep(); phys(); return; }
     CC_Array *a = A[k];
     void *out = PTR(777777);
     if (is_op(c, "destroy") || is_op(c, "destroy_cb")) {
